@@ -2,7 +2,7 @@
    and what the implementation did; check_case re-runs the model and compares. *)
 From Coq Require Import List Arith NArith Bool.
 Import ListNotations.
-Require Import FV.Base.Util FV.Gen.C07 FV.C07.Model.
+Require Import FV.Base.Util FV.Gen.C07 FV.C07.Model FV.C07.Conc.
 
 (* compact literals: a byte string is written as one hexadecimal number, a leading 1 marks the start;
    B reads 8 bits per element, U 24 bits per element (code points) *)
@@ -33,7 +33,11 @@ Inductive case :=
 | CStream (chunks : list event) (json : list (str * option str)) (lines : list (hres * str))
           (o_out : list bytes) (o_calls : list call) (o_rest : bytes) (o_alive : bool)
 | CEncode (m : msg) (o : option bytes)   (* None: encode_msg_frame raised UnicodeEncodeError *)
-| CDecode (line : bytes) (json : list (str * option str)) (o : option msg).
+| CDecode (line : bytes) (json : list (str * option str)) (o : option msg)
+(* concurrent send path: per thread the (connection, message) pairs it handed to send_reply, the schedule as executed
+   (one event per atomic step: encode / acquire / partial write of k bytes / failing write), number of connections;
+   observed: bytes each socket accepted, self.running of each connection at the end *)
+| CConc (progs : list (list job)) (sched : list cevent) (nconn : nat) (o_socks : list bytes) (o_running : list bool).
 
 (* law of the json.dumps oracle (ensure_ascii left at its default): every data text handed to the model - reply data,
    error texts, data of the messages handlers and other threads sent - is printable ASCII.  It is the premise of
@@ -51,6 +55,13 @@ Definition check_case (c : case) : bool :=
       && ascii_lines lines && forallb ascii_event chunks
   | CEncode m o => opt_eqb str_eqb (encode_msg m) o && qostr printable (snd m)
   | CDecode line json o => opt_eqb msg_eqb (decode_msg (mk_env json []) line) o
+  | CConc progs sched nconn o_socks o_running =>
+      let st := crun true (cinit (progs_of progs)) sched in
+      let cs := seq 0 nconn in
+      list_eqb str_eqb (map (fun c => sock (con st c)) cs) o_socks
+      && list_eqb Bool.eqb (map (fun c => running (con st c)) cs) o_running
+      && forallb (fun c => negb (is_some (lock (con st c)))) cs
+      && forallb (fun t => is_nil (todo (thr st t))) (seq 0 (length progs))
   end.
 
 (* what the model does, for diagnosis in replay files *)
@@ -60,4 +71,7 @@ Definition model_result (c : case) : list bytes * list call * bytes * option msg
       let st := serve (mk_env json lines) chunks in (output st, rev (calls st), buf st, None)
   | CEncode m _ => (match encode_msg m with Some f => [f] | None => [] end, [], [], None)
   | CDecode line json _ => ([], [], [], decode_msg (mk_env json []) line)
+  | CConc progs sched nconn _ _ =>
+      let st := crun true (cinit (progs_of progs)) sched in
+      (map (fun c => sock (con st c)) (seq 0 nconn), [], [], None)
   end.
